@@ -340,7 +340,7 @@ PROPS["C13"] = dict(
     outside=["non-default search_mesh_expand / poll_mesh_multiplier", "stobads mode", "floating point: mesh sizes are exact powers of two in both models"],
     time_limit=dict(quick=600, thorough=5400))
 
-PS_C14 = {"poll_point_on_frame", "poll_points_pairwise_distinct", "poll_at_most_2D_evaluations", "directions_generated_once"}
+PS_C14 = {"poll_point_on_frame", "poll_points_pairwise_distinct", "poll_at_most_2D_evaluations"}
 PM_C14 = {"two_D_directions", "second_half_is_negated_first_half", "entries_are_integers", "entries_bounded_by_mesh_ratio", "basis_is_nonsingular",
           "signed_coordinate_directions_when_ratio_one"}
 PROPS["C14"] = dict(
@@ -377,7 +377,6 @@ PROPS["C04"] = dict(
     time_limit=dict(quick=600, thorough=5400))
 
 C17_LABELS = {"rows_inside_box", "rows_are_input_rows", "rows_pairwise_distinct", "not_already_evaluated", "returned_rows_feasible", "feasible_count",
-              "oracle_called_once",
               # the call sites: what the initial design / poll / search actually evaluate is the filtered set
               "design_points_pairwise_distinct", "design_point_in_search_box", "design_point_oracle_feasible",
               "poll_points_pairwise_distinct", "poll_point_in_hard_box", "poll_point_oracle_feasible",
@@ -486,7 +485,7 @@ PROPS["C01"] = dict(
     time_limit=dict(quick=900, thorough=5400))
 
 # ------------------------------------------------------------------------------------------------ C02
-C02_LABELS = {"oracle_called_once", "oracle_gets_inverse_transformed_rows", "returned_rows_feasible", "feasible_count",           # H-CC
+C02_LABELS = {"oracle_gets_inverse_transformed_rows", "returned_rows_feasible", "feasible_count",           # H-CC
               "poll_point_oracle_feasible", "evaluated_point_oracle_feasible", "design_point_oracle_feasible",                   # steps
               "strategy_receives_constraint_and_sum_rule", "candidates_oracle_feasible",                                        # H-HG / H-ES
               "x0_rejection_only_if_oracle_violated", "accepted_snapped_x0_feasible", "snapped_x0_feasibility_checked",          # H-SB
@@ -542,10 +541,10 @@ def es_jobs(tier, cons=(None, "bool")):
 
 
 C18_LABELS = {"empty_search_set_only_without_survivors", "returned_value_is_lowest_acquisition_of_survivors", "returned_point_is_candidate_with_that_value",
-              "candidates_inside_mesh_rounded_box", "candidates_oracle_feasible", "two_generations",
+              "candidates_inside_mesh_rounded_box", "candidates_oracle_feasible",
               "probabilities_sum_to_one", "each_probability_at_least_exploration_floor_at_most_one", "chosen_index_valid_and_strategy_invoked",
               "strategy_receives_constraint_and_sum_rule",
-              "search_at_most_one_evaluation", "hedge_called_once", "evaluated_point_is_projected_gridded_candidate", "evaluated_point_in_search_box"}
+              "search_at_most_one_evaluation", "evaluated_point_is_projected_gridded_candidate", "evaluated_point_in_search_box"}
 PROPS["C18"] = dict(
     jobs=lambda tier: es_jobs(tier) + ss_jobs(tier, levels=(0, 1)), labels=C18_LABELS, required=sorted(C18_LABELS),
     bounds=dict(quick="ES search (ES-ell initialisation, real filter and gridding): mu=lambda in {1,2} for D=1, 1 for D=2, two generations, symbolic normal draws / acquisition values / constraint oracle; hedge: 2 and 3 strategies, symbolic scores, exploration floor concrete and symbolic in (0,1/n]; search step as C03",
